@@ -1,5 +1,9 @@
 import RQ.Model.Path
-/-! C12: a stripped name is a fixed point of `stripPath 0` (the written name is read back with strip 0). -/
+import RQ.Lemmas.PathLemmas
+/-! C12: a stripped name is a fixed point of `stripPath 0` (the written name is read back with strip 0).
+
+Since `strip_path` also skips a leading `.` component (`skip_cur_dir`), `stripPath 0` is the identity only on
+trimmed names that do not start with a `.` component; a stripped name never does. -/
 namespace RQ
 open RQ
 
@@ -92,16 +96,25 @@ theorem lastPiece_sep (l1 l2 : Bytes) : rtLastPiece (l1 ++ SEP :: l2) = rtLastPi
   have : (l1 ++ SEP :: l2).reverse = l2.reverse ++ SEP :: l1.reverse := by simp
   rw [this, takeWhile_append_stop _ _ _ _ (by simp)]
 
-/-- the `keep` that `stripPath 0` computes -/
+/-- the `keep` that `stripPath 0` computes (for a name without a leading `.` component) -/
 def keepOf (x : Bytes) : Nat :=
   match x with
   | b :: _ => if b = SEP then 1 else if includeCurDir x then 1 else 0
   | [] => 0
 
-theorem stripPath_zero_trim (raw : Bytes) : stripPath 0 raw = trimRight (keepOf raw) (raw.length + 1) raw := by
+/-- without a leading `.` component `stripPath 0` only trims on the right -/
+theorem stripPath_zero_trim (raw : Bytes) (hc : includeCurDir raw = false) :
+    stripPath 0 raw = trimRight (keepOf raw) (raw.length + 1) raw := by
   unfold stripPath dropComps keepOf
-  simp only [Bool.false_eq_true, if_false]
+  simp only [hc, Bool.not_false, Bool.and_false, Bool.false_eq_true, if_false]
   cases raw <;> rfl
+
+/-- a leading `.` component is skipped (`skip_cur_dir`), the iterator is then in the body state -/
+theorem stripPath_zero_cur (raw : Bytes) (hc : includeCurDir raw = true) :
+    stripPath 0 raw = trimRight 0 ((trimLeft (raw.tail.length + 1) raw.tail).length + 1)
+      (trimLeft (raw.tail.length + 1) raw.tail) := by
+  unfold stripPath dropComps
+  simp only [hc, Bool.not_false, Bool.and_true, if_true]
 
 theorem includeCurDir_cases (b : UInt8) (t : Bytes) (h : includeCurDir (b :: t) = true) :
     b = DOT ∧ (t = [] ∨ ∃ t', t = SEP :: t') := by
@@ -141,67 +154,57 @@ theorem Trimmed_keepOf (x : Bytes) (h : Trimmed 0 x) : Trimmed (keepOf x) x := b
         · simp only [hc]
           right; simpa using h
 
-theorem stripPath_fix_of_Trimmed (x : Bytes) (h : Trimmed 0 x) : stripPath 0 x = x := by
-  rw [stripPath_zero_trim]
+theorem stripPath_fix_of_Trimmed (x : Bytes) (hc : includeCurDir x = false) (h : Trimmed 0 x) :
+    stripPath 0 x = x := by
+  rw [stripPath_zero_trim x hc]
   exact trimRight_of_Trimmed _ _ _ (Trimmed_keepOf x h)
 
-theorem stripPath_succ_form (n : Nat) (raw : Bytes) : ∃ y, stripPath (n+1) raw = trimRight 0 (y.length + 1) y := by
-  unfold stripPath dropComps
-  cases raw with
-  | nil => exact ⟨_, rfl⟩
-  | cons b rest =>
-    simp only []
-    split
-    · exact ⟨_, rfl⟩
-    · split
-      · exact ⟨_, rfl⟩
-      · exact ⟨_, rfl⟩
+/-- the result of `trimRight 0` on a name without leading `/` or `.` component is a fixed point -/
+theorem stripPath_fix_trimRight0 (y : Bytes) (hy : Plain y) :
+    stripPath 0 (trimRight 0 (y.length + 1) y) = trimRight 0 (y.length + 1) y := by
+  have hp : Plain (trimRight 0 (y.length + 1) y) := TR_plain (trimRight0_spec _ y).2 hy
+  exact stripPath_fix_of_Trimmed _ hp.2 (trimRight_spec 0 _ y (by omega)).1
 
-theorem stripPath_idem (n : Nat) (raw : Bytes) : stripPath 0 (stripPath n raw) = stripPath n raw := by
+/-- the two shapes of a stripped name: trimmed body, or `/` followed by a trimmed body -/
+theorem stripPath_form (n : Nat) (raw : Bytes) :
+    (∃ y, Plain y ∧ stripPath n raw = trimRight 0 (y.length + 1) y) ∨
+    (∃ bs, n = 0 ∧ raw = SEP :: bs ∧ stripPath n raw = trimRight 1 (raw.length + 1) raw) := by
   cases n with
   | succ n =>
-    obtain ⟨y, e⟩ := stripPath_succ_form n raw
-    rw [e]
-    exact stripPath_fix_of_Trimmed _ (trimRight_spec 0 _ y (by omega)).1
-  | zero =>
-    rw [stripPath_zero_trim raw]
-    obtain ⟨ht, m, hm, e⟩ := trimRight_spec (keepOf raw) (raw.length + 1) raw (by omega)
-    generalize trimRight (keepOf raw) (raw.length + 1) raw = x at *
-    rw [stripPath_zero_trim]
-    apply trimRight_of_Trimmed
+    left
+    unfold stripPath dropComps
     cases raw with
-    | nil => subst e; simpa [keepOf] using ht
-    | cons b t =>
-      by_cases hb : b = SEP
-      · have hk : keepOf (b :: t) = 1 := by simp [keepOf, hb]
-        rw [hk] at ht hm
-        have : ∃ t', x = b :: t' := by
-          cases m with
-          | zero => simp at hm
-          | succ m => exact ⟨t.take m, by rw [e]; rfl⟩
-        obtain ⟨t', rfl⟩ := this
-        have : keepOf (b :: t') = 1 := by simp [keepOf, hb]
-        rw [this]; exact ht
-      · by_cases hc : includeCurDir (b :: t) = true
-        · have hk : keepOf (b :: t) = 1 := by simp [keepOf, hb, hc]
-          rw [hk] at ht hm
-          obtain ⟨hb', htt⟩ := includeCurDir_cases b t hc
-          have : keepOf x = 1 := by
-            cases m with
-            | zero => simp at hm
-            | succ m =>
-              rcases htt with rfl | ⟨t', rfl⟩
-              · subst e; simp [keepOf, hb, hc]
-              · cases m with
-                | zero =>
-                  subst e; subst hb'
-                  simp [keepOf, includeCurDir, SEP, DOT]
-                | succ m =>
-                  subst e; subst hb'
-                  simp [keepOf, includeCurDir, SEP, DOT]
-          rw [this]; exact ht
-        · have hk : keepOf (b :: t) = 0 := by simp [keepOf, hb, hc]
-          rw [hk] at ht
-          exact Trimmed_keepOf x ht
+    | nil => exact ⟨_, (trimLeft_spec _ _ (by omega)).2, rfl⟩
+    | cons b rest =>
+      simp only []
+      split
+      · exact ⟨_, (trimLeft_spec _ _ (by omega)).2, rfl⟩
+      · split
+        · exact ⟨_, (trimLeft_spec _ _ (by omega)).2, rfl⟩
+        · exact ⟨_, (trimLeft_spec _ _ (by omega)).2, rfl⟩
+  | zero =>
+    cases hc : includeCurDir raw with
+    | true => exact Or.inl ⟨_, (trimLeft_spec _ _ (by omega)).2, stripPath_zero_cur raw hc⟩
+    | false =>
+      rw [stripPath_zero_trim raw hc]
+      cases raw with
+      | nil => exact Or.inl ⟨[], by simp [Plain, includeCurDir], rfl⟩
+      | cons b t =>
+        by_cases hb : b = SEP
+        · subst hb
+          exact Or.inr ⟨t, rfl, rfl, by simp [keepOf]⟩
+        · refine Or.inl ⟨b :: t, ⟨by simpa using hb, hc⟩, ?_⟩
+          simp [keepOf, hb, hc]
+
+theorem stripPath_idem (n : Nat) (raw : Bytes) : stripPath 0 (stripPath n raw) = stripPath n raw := by
+  rcases stripPath_form n raw with ⟨y, hy, e⟩ | ⟨bs, _, rfl, e⟩
+  · rw [e]; exact stripPath_fix_trimRight0 y hy
+  · rw [e]
+    obtain ⟨ht, _⟩ := trimRight_spec 1 ((SEP :: bs).length + 1) (SEP :: bs) (by omega)
+    rw [trimRight1_cons] at ht ⊢
+    rw [stripPath_zero_trim _ (includeCurDir_sep _)]
+    have hk : keepOf (SEP :: trimRight 0 ((SEP :: bs).length + 1) bs) = 1 := by simp [keepOf]
+    rw [hk]
+    exact trimRight_of_Trimmed _ _ _ ht
 
 end RQ
